@@ -4,6 +4,7 @@
 //! (One file: the three properties share the type-family dispatch.)
 
 use proptest::prelude::*;
+use rayon::prelude::*;
 use serde_json::{json, Value as Json};
 
 use crate::engine::*;
@@ -313,6 +314,41 @@ fn run_c04(ctx: &mut Ctx) {
         (crate::gen::g_bytes(24), g_str(), proptest::option::of(g_str()), proptest::collection::vec(crate::gen::g_bytes(6), 0..3)),
         |(data, name, opt, more)| check_borrowed(data, name, opt.as_deref(), more),
     );
+    // every f32 there is (thorough; every 512th bit pattern in the quick tier)
+    // through to_value and from_value: the widening to the S-expression's
+    // double and the narrowing back are exact for each single one of them
+    {
+        let step: u64 = tier.pick(512, 1);
+        let chunks: u64 = 4096;
+        let per = (1u64 << 32) / chunks;
+        let bad: Vec<(u32, String)> = (0..chunks)
+            .into_par_iter()
+            .flat_map_iter(|c| {
+                let mut out = Vec::new();
+                let mut b = c * per + (c % step);
+                while b < (c + 1) * per && out.len() < 4 {
+                    let x = f32::from_bits(b as u32);
+                    if !x.is_nan() {
+                        match serde_lexpr::to_value(x).map_err(|e| e.to_string()).and_then(|v| serde_lexpr::from_value::<f32>(&v).map_err(|e| e.to_string())) {
+                            Ok(y) if y.to_bits() == x.to_bits() => {}
+                            Ok(y) => out.push((b as u32, format!("came back as {:?} (bits {:#x})", y, y.to_bits()))),
+                            Err(e) => out.push((b as u32, e)),
+                        }
+                    }
+                    b += step;
+                }
+                out
+            })
+            .collect();
+        let n = (1u64 << 32) / step;
+        ctx.exhaustive.push(format!("f32 bit patterns through to_value/from_value: {} of 2^32 ({})", n, if step == 1 { "all" } else { "every 512th, offset varying by block" }));
+        for (bits, what) in bad.iter().take(3) {
+            let x = f32::from_bits(*bits);
+            ctx.observe("f32-sweep", Err(Failure::new("C04 type=f32 stage=from_value changed sweep", format!("f32 {:?} (bits {:#x}) {}", x, bits, what), json!({"type": "f32", "x": x}))));
+        }
+        ctx.observe("f32-sweep", Ok(Eval::new(true, n).class("f32").class("f32-sweep")));
+        ctx.flush_failures();
+    }
     // NaN on the value path
     for bits in [f64::NAN.to_bits(), 0x7ff0_0000_0000_0001u64, 0xfff8_0000_0000_0000u64] {
         let x = f64::from_bits(bits);
